@@ -7,8 +7,11 @@ import (
 	"go/token"
 	"go/types"
 	"os"
+	"os/exec"
 	"path/filepath"
+	"regexp"
 	"sort"
+	"strconv"
 	"strings"
 
 	"golang.org/x/tools/go/packages"
@@ -167,6 +170,7 @@ func R1Bounds(c *Ctx, scope []*ssa.Function, ruleSuffix string, floor int) {
 				default:
 					continue
 				}
+				c.noteBoundsSite(in)
 				if isTrivial {
 					trivial++
 					continue
@@ -191,6 +195,13 @@ func R1Bounds(c *Ctx, scope []*ssa.Function, ruleSuffix string, floor int) {
 				c.R.Bad(rule, fname, construct, pos, "index/slice bounds not provable from the conditions that dominate it: a crafted packet can make it panic (index/slice out of range)")
 			}
 		}
+	}
+	if c.Thorough {
+		fl := 1
+		if ruleSuffix == "" {
+			fl = 50
+		}
+		R1BCECross(c, scope, ruleSuffix, fl)
 	}
 	c.R.Extra["bounds_trivial"+ruleSuffix] = trivial
 	c.R.Extra["bounds_proved"+ruleSuffix] = proved
@@ -678,4 +689,133 @@ func (c *Ctx) structOfMap(fn *ssa.Function, m ssa.Value, depth int) *types.Struc
 		return res
 	}
 	return nil
+}
+
+// bceSites: (file:line) of every index/slice instruction R1Bounds looked at, trivial ones included.
+func (c *Ctx) noteBoundsSite(in ssa.Instruction) {
+	if c.boundsSeen == nil {
+		c.boundsSeen = map[string]bool{}
+	}
+	if in.Pos().IsValid() {
+		p := c.P.Fset.Position(in.Pos())
+		c.boundsSeen[p.Filename+":"+itoa(p.Line)] = true
+	}
+}
+
+// R1BCECross — thorough tier: the compiler's own list of bounds checks it
+// could not eliminate (a compile with -d=ssa/check_bce, nothing is run) must be
+// a subset of the sites R1Bounds enumerated in the scope: the analyser has not
+// overlooked a kind of indexing.
+func R1BCECross(c *Ctx, scope []*ssa.Function, suffix string, floor int) {
+	rule := "R1-bce-crosscheck" + suffix
+	c.R.Rule(rule, "every bounds check the Go compiler reports as not eliminated (go build -gcflags=-d=ssa/check_bce/debug=1; a compile, nothing runs) inside a function of the scope is one of the index/slice sites R1-bounds decided", floor)
+	inScope := map[*ssa.Function]bool{}
+	pkgs := map[string]bool{}
+	for _, fn := range scope {
+		inScope[fn] = true
+		pkgs[FuncPkgPathOf(fn)] = true
+	}
+	// innermost function by source range
+	type rng struct {
+		fn         *ssa.Function
+		file       string
+		start, end int
+	}
+	var rngs []rng
+	for fn := range c.P.AllFuncs() {
+		if fn.Syntax() == nil || !c.P.InModule(FuncPkgPathOf(fn)) {
+			continue
+		}
+		s, e := c.P.Fset.Position(fn.Syntax().Pos()), c.P.Fset.Position(fn.Syntax().End())
+		rngs = append(rngs, rng{fn, s.Filename, s.Line, e.Line})
+	}
+	var plist []string
+	for p := range pkgs {
+		plist = append(plist, p)
+	}
+	sort.Strings(plist)
+	dir := filepath.Join(c.Repo, "teamserver")
+	re := regexp.MustCompile(`^(\S+?):(\d+):(\d+): Found (IsInBounds|IsSliceInBounds)`)
+	for _, p := range plist {
+		if p == "" {
+			continue
+		}
+		cmd := exec.Command("go", "build", "-gcflags="+p+"=-d=ssa/check_bce/debug=1", p)
+		cmd.Dir = dir
+		cmd.Env = append(os.Environ(), "GOFLAGS=-mod=mod", "GOPROXY=off", "GOSUMDB=off", "GOTOOLCHAIN=local", "GOWORK=off")
+		out, err := cmd.CombinedOutput()
+		if err != nil && !strings.Contains(string(out), "Found ") {
+			c.R.Und(rule, p, "compile with check_bce", "-", "the cross-check compile failed: "+strings.TrimSpace(string(out)))
+			continue
+		}
+		n, miss := 0, 0
+		for _, line := range strings.Split(string(out), "\n") {
+			m := re.FindStringSubmatch(strings.TrimSpace(line))
+			if m == nil {
+				continue
+			}
+			file := filepath.Join(dir, m[1])
+			ln, _ := strconv.Atoi(m[2])
+			var best *rng
+			for i := range rngs {
+				r := &rngs[i]
+				if r.file == file && r.start <= ln && ln <= r.end && (best == nil || r.end-r.start < best.end-best.start) {
+					best = r
+				}
+			}
+			if best == nil || !inScope[best.fn] {
+				continue
+			}
+			n++
+			col, _ := strconv.Atoi(m[3])
+			if !c.boundsSeen[file+":"+itoa(ln)] && c.inlinedAt(FuncPkgPathOf(best.fn), file, ln, col) {
+				c.R.Ok(rule, FuncShort(best.fn), "compiler-kept "+m[4]+" at a call", "teamserver/"+m[1]+":"+m[2]+":"+m[3], "the position is the parenthesis of a call (or a comparison operator): the check belongs to the inlined callee's body, which is decided where it is declared (module) or trusted (standard library)", false)
+				continue
+			}
+			if !c.boundsSeen[file+":"+itoa(ln)] {
+				miss++
+				c.R.Und(rule, FuncShort(best.fn), "compiler-kept "+m[4], "teamserver/"+m[1]+":"+m[2]+":"+m[3], "the compiler keeps a bounds check here that R1-bounds did not enumerate")
+			} else {
+				c.R.Ok(rule, FuncShort(best.fn), "compiler-kept "+m[4], "teamserver/"+m[1]+":"+m[2]+":"+m[3], "among the sites R1-bounds decided", false)
+			}
+		}
+		c.R.Extra["bce_sites_"+shortCallee(p)] = n
+		_ = miss
+	}
+}
+
+// inlinedAt: the position is the "(" of a call expression or the operator of an ==/!= comparison.
+func (c *Ctx) inlinedAt(pkgPath, file string, line, col int) bool {
+	pk := c.P.ByPath[pkgPath]
+	if pk == nil {
+		return false
+	}
+	found := false
+	for _, f := range pk.Syntax {
+		if c.P.Fset.Position(f.Pos()).Filename != file {
+			continue
+		}
+		ast.Inspect(f, func(n ast.Node) bool {
+			if found || n == nil {
+				return false
+			}
+			var p token.Pos
+			switch x := n.(type) {
+			case *ast.CallExpr:
+				p = x.Lparen
+			case *ast.BinaryExpr:
+				if x.Op == token.EQL || x.Op == token.NEQ {
+					p = x.OpPos
+				}
+			}
+			if p.IsValid() {
+				pp := c.P.Fset.Position(p)
+				if pp.Line == line && pp.Column == col {
+					found = true
+				}
+			}
+			return true
+		})
+	}
+	return found
 }
